@@ -103,6 +103,13 @@ Theorem C04_no_stat_for_new_files :
 Proof. exact mk_include_no_stat_for_new. Qed.
 Print Assumptions C04_no_stat_for_new_files.
 
+(* `Timestamp::from(SystemTime)` (seconds = FLOOR of the signed distance from the epoch, nanoseconds in [0, 10^9)) is
+   injective, also before 1970: the mtime that the digest of a __TIMESTAMP__ header and the stat shortcut see
+   distinguishes any two instants. *)
+Theorem C04_timestamp_injective : forall x y : N, ts_of x = ts_of y -> x = y.
+Proof. exact ts_of_injective. Qed.
+Print Assumptions C04_timestamp_injective.
+
 (* hash_working_directory: the argument list generate_hash_key hands to the preprocessor-cache key ends with the
    working directory, so two requests from different directories never have the same list - whatever the spelling
    (relative / absolute) of the input path.  Source side condition: Proofs/PpTimeline.v prelude_cwd_guard_ok (the push
